@@ -16,12 +16,33 @@ use crate::util::{self, Comp};
 use jubako as jbk;
 use jbk::Pack;
 
+/// the verdict of one handle asked twice: a handle which answered "not verified" (false or an error) must not
+/// answer `true` when asked again — if it does, the verdict reported is that `true`
+fn ask_twice(mut check: impl FnMut() -> Result<bool, jbk::Error>) -> Result<bool, jbk::Error> {
+    let first = check();
+    let second = check();
+    match (&first, &second) {
+        (Ok(true), _) => first,
+        (_, Ok(true)) => second,
+        _ => first,
+    }
+}
+
 fn pack_check(kind: u8, bytes: Vec<u8>) -> String {
     let r = util::guarded(|| -> Result<bool, jbk::Error> {
         match kind {
-            b'm' => jbk::reader::ManifestPack::new(bytes.into())?.check(),
-            b'd' => jbk::reader::DirectoryPack::new(bytes.into())?.check(),
-            b'c' => jbk::reader::ContentPack::new(bytes.into())?.check(),
+            b'm' => {
+                let p = jbk::reader::ManifestPack::new(bytes.into())?;
+                ask_twice(|| p.check())
+            }
+            b'd' => {
+                let p = jbk::reader::DirectoryPack::new(bytes.into())?;
+                ask_twice(|| p.check())
+            }
+            b'c' => {
+                let p = jbk::reader::ContentPack::new(bytes.into())?;
+                ask_twice(|| p.check())
+            }
             _ => Ok(true),
         }
     });
@@ -34,7 +55,10 @@ fn pack_check(kind: u8, bytes: Vec<u8>) -> String {
 }
 
 fn container_check(entry: &std::path::Path) -> String {
-    let r = util::guarded(|| -> Result<bool, jbk::Error> { jbk::reader::Container::new(entry)?.check() });
+    let r = util::guarded(|| -> Result<bool, jbk::Error> {
+        let c = jbk::reader::Container::new(entry)?;
+        ask_twice(|| c.check())
+    });
     match r {
         Ok(Ok(true)) => "true".into(),
         Ok(Ok(false)) => "false".into(),
@@ -44,7 +68,10 @@ fn container_check(entry: &std::path::Path) -> String {
 }
 
 fn file_check(path: &std::path::Path) -> String {
-    let r = util::guarded(|| -> Result<bool, jbk::Error> { jbk::tools::open_pack(path)?.check() });
+    let r = util::guarded(|| -> Result<bool, jbk::Error> {
+        let p = jbk::tools::open_pack(path)?;
+        ask_twice(|| p.check())
+    });
     match r {
         Ok(Ok(true)) => "true".into(),
         Ok(Ok(false)) => "false".into(),
